@@ -75,6 +75,7 @@ def extract_facts():
         rc, o = sh(["go", "build", "-o", binp, "."], cwd=EXTRACT, env=GOENV)
         if rc != 0:
             raise RuntimeError("extractor build failed:\n" + o)
+        os.makedirs(os.path.dirname(out), exist_ok=True)
         tmp = out + ".tmp"
         if os.path.exists(tmp):
             os.remove(tmp)
